@@ -53,6 +53,11 @@ type Options struct {
 	Pad      int
 	// MuteTransferTarget: a third of the partitions silence the target of the latest leader transfer
 	MuteTransferTarget bool
+	// StepDuringCC: in a quarter of the membership changes a replica applies, its step worker runs
+	// one iteration (with the ticks that piled up meanwhile) after the state machine manager has
+	// done its part and before node.ApplyConfigChange hands the change to the raft core (the two
+	// workers only meet at raftMu)
+	StepDuringCC bool
 }
 
 type flight struct {
